@@ -43,6 +43,7 @@ def run(chk):
     )
     chk.rule("ENTRY", "no public entry point writes to a pre-existing object or a module-level container (summaries MUT, global writes)")
     chk.rule("PRIM", "map_subtree copies each node, rebuilds its children recursively and only then applies g")
+    chk.rule("UPD", "Cache.update interpreted on every verb sequence up to the bound never modifies the cache of its input table (every field compared before / after)")
     chk.rule("CLONE", "every _clone rebuilds all node-bearing and expression-bearing fields (clone() is deep-fresh)")
     chk.rule("BACKEND", "pipe-layer calls into back-end export/build_query pass <ast>.clone()")
     chk.rule("FTYPE", "ftype(agg_is_window=<not None>) is only called on fresh or verb-owned expression trees")
@@ -95,6 +96,10 @@ def run(chk):
             f"{len(lst)} public entry point(s), e.g. parameter `{p}` (depth {k}) of {fn.qual}; paths: {' | '.join(paths)}",
             extra={"entries": sorted({x[0].qual for x in lst})[:40]},
         )  # fmt: skip
+
+    from .. import cachesim
+
+    cachesim.report(chk, m, "UPD", "C10", "input cache untouched by Cache.update")
 
     _prim_rule(chk, sym)
     _clone_rule(chk, sym)
